@@ -13,7 +13,7 @@ func init() {
 }
 
 var profC05 = &Profile{Name: "context-reuse", MaxDepth: 3, MaxItems: 4, Includes: true, Regions: true, PfxSfx: true, Letters: true, Mods: true, BreakN: true,
-	W: map[string]int{"text": 1, "marker": 2, "print": 4, "if": 2, "switch": 1, "cloop": 3, "rloop": 3, "include": 2, "region": 2, "openregion": 1, "exit": 2,
+	W: map[string]int{"text": 1, "marker": 2, "print": 4, "if": 2, "switch": 1, "cloop": 3, "rloop": 3, "include": 2, "region": 2, "openregion": 1, "exit": 2, "ifok": 1,
 		"break": 1, "lazybreak": 1, "continue": 1, "ctx": 3, "counter": 2, "dynprint": 3, "dyncond": 1, "failing": 2}}
 
 var profC18 = &Profile{Name: "defer-and-pools", MaxDepth: 3, MaxItems: 4, Includes: true, Mods: true, Effects: true,
